@@ -387,6 +387,11 @@ func (vr *variableResolver) resolve(ctx *ExecutionContext) (*Value, error) {
 			return AsValue(nil), nil
 		}
 
+		if !current.CanInterface() {
+			// An unexported struct field is not accessible from a template
+			return AsValue(nil), nil
+		}
+
 		// If current is a reflect.ValueOf(pongo2.Value), then unpack it
 		// Happens in function calls (as a return value) or by injecting
 		// into the execution context (e.g. in a for-loop)
